@@ -515,7 +515,10 @@ pub fn run14(s: &Scn14, ctx: &mut RunCtx) -> RunOutput {
     cfg.horizon_ms = 30 * YEAR_MS;
     cfg.max_steps = 200_000;
     cfg.rt_seed = ctx.rt_seed;
-    world::with(|w| w.rng_state = ctx.rt_seed);
+    world::with(|w| {
+        w.rng_state = ctx.rt_seed;
+        w.call_limit = s.attempts + 16;
+    });
     let scn = s.clone();
     let setup = move || {
         tower_resilience_core::verif::set_rng_hook(Some(world::hook_rng_u64));
@@ -654,7 +657,7 @@ impl Prop for C14 {
     fn runs(&self, t: Tier) -> u64 {
         match t {
             Tier::Quick => 1_500,
-            Tier::Thorough => 30_000,
+            Tier::Thorough => 300_000,
         }
     }
     fn nontrivial_rule(&self) -> &'static str {
